@@ -5,6 +5,7 @@ returns named obligations; callees are used through their contracts or, for
 small helpers without a contract, inlined ("verified with caller").
 """
 import ast
+import os
 import re as _re
 
 import z3
@@ -116,7 +117,31 @@ class Engine:
             r = s.check()
         finally:
             s.pop()
+        if r == z3.unsat and self._quantified(st.pc, extra):
+            # z3's incremental mode (push/pop) answered `unsat` on satisfiable sets of quantified facts over sequences
+            # (seen on add_command_option: four length facts in the core, a fresh solver says sat).  Pruning a feasible
+            # path would silently drop its obligations, so an `unsat` over quantified facts is confirmed by a fresh,
+            # non-incremental solver; only then is the path pruned.
+            f = z3.Solver()
+            f.set("timeout", 20000)
+            for a in self.global_axioms:
+                f.add(a)
+            for c in st.pc:
+                f.add(c)
+            if extra is not None:
+                f.add(extra)
+            r2 = f.check()
+            self.__dict__["n_confirm"] = self.__dict__.get("n_confirm", 0) + 1
+            if r2 != z3.unsat:
+                self.__dict__["n_overruled"] = self.__dict__.get("n_overruled", 0) + 1
+                self.trusted.add("z3 incremental mode answered unsat on a satisfiable path condition with quantifiers "
+                                 "(overruled by a fresh solver; the path was kept)")
+            return r2 != z3.unsat
         return r != z3.unsat
+
+    def _quantified(self, pc, extra=None):
+        """quantified facts may be around (set by the quantifier / same_except builders of the specification layer)"""
+        return bool(self.__dict__.get("uses_quantifiers"))
 
     def fork(self, st, cond):
         """(state where cond, state where not cond); None if infeasible."""
@@ -292,6 +317,16 @@ class Engine:
                 # inside specifications the fact "this reference is valid and well-typed" is not a branch
                 # condition: it is recorded as a global fact about the (closed) term, so that the forks of a
                 # union read still partition the state space when they are merged
+                qa = self.__dict__.get("quant_axioms")
+                if qa:
+                    # ... unless the term may mention the bound variable of an enclosing quantifier: then the fact
+                    # is recorded for that quantifier -- under the guards in force where the value was read -- and
+                    # becomes a quantified well-typedness axiom (see _quant), never a fact about a free constant
+                    n0 = qa[-1]["n0"]
+                    g = list(st.pc[n0:])
+                    if os.environ.get("PYVC_QUANT_WT", "drop") == "axiom":
+                        qa[-1]["items"].append(z3.Implies(z3.And(g), c) if g else c)
+                    return st
                 self.add_axiom(c)
                 return st
             return st.assume(c)
@@ -1227,6 +1262,7 @@ class Engine:
             # only [x] * n
             rep = z3.Const(fresh_name("rep"), z3.SeqSort(sort_of(k)))
             i = z3.Int(fresh_name("i"))
+            self.uses_quantifiers = True
             x = base[0]
             s2 = st.assume(z3.And(z3.Length(base) == 1, z3.Length(rep) == z3.If(n > 0, n, 0),
                                   z3.ForAll([i], z3.Implies(z3.And(i >= 0, i < z3.Length(rep)), rep[i] == x))))
@@ -1499,6 +1535,7 @@ class Engine:
             if v.kind.tag not in ("int", "bool", "str", "real", "ref"):
                 raise Unsupported("comprehension element of kind %s" % (v.kind,))
             R = z3.Const(fresh_name("lcomp"), z3.SeqSort(sort_of(v.kind)))
+            self.uses_quantifiers = True
             ax = z3.And(z3.Length(R) == z3.Length(seq), z3.ForAll([i], z3.Implies(rng, R[i] == v.t)))
             s2, lv = self.new_list(s.assume(ax), v.kind, R)
             return [Out("ok", s2, lv)]
